@@ -42,6 +42,14 @@ from rtamt.syntax.node.ltl.constant import Constant
 from rtamt.exception.exception import RTAMTException
 
 
+def literal_text(text):
+    """Decimal spelling of a literal of the grammar (hex, binary and '_' digit separators are legal literals)."""
+    text = text.replace('_', '')
+    if text[:2] in ('0x', '0X', '0b', '0B'):
+        text = str(int(text, 0))
+    return text
+
+
 class LtlAstParserVisitor(LtlParserVisitor):
 
     def visitExprPredicate(self, ctx):
@@ -123,7 +131,7 @@ class LtlAstParserVisitor(LtlParserVisitor):
         # fetch the variable name, type and io signature
         const_name = ctx.Identifier().getText()
         const_type = ctx.domainType().getText()
-        const_value = ctx.literal().getText()
+        const_value = literal_text(ctx.literal().getText())
 
         self.declare_const(const_name, const_type, const_value)
 
@@ -218,7 +226,7 @@ class LtlAstParserVisitor(LtlParserVisitor):
         return node
 
     def visitExprLiteral(self, ctx):
-        val = float(ctx.literal().getText())
+        val = float(literal_text(ctx.literal().getText()))
         node = Constant(val)
         self.phi_name_to_node_dict[node.name] = node
         return node
